@@ -304,3 +304,31 @@ def strict_eq(a, b):
 def path_spec(path):
     """engine path list -> spec path (list indices written "#i")"""
     return ["#%d" % p if isinstance(p, int) else p for p in path]
+
+
+def rename_variables(nodes):
+    """The same document with its variables renamed q1, q2, ... in order of first appearance (names carry no
+    meaning; different documents then reuse the same names with different types).  -> (nodes, mapping)"""
+    mapping = {}
+
+    def name(v):
+        if v not in mapping:
+            mapping[v] = "q%d" % (len(mapping) + 1)
+        return mapping[v]
+
+    def lit_r(l):
+        if l["t"] == "var":
+            return dict(l, v=name(l["v"]))
+        if l["t"] == "list":
+            return dict(l, v=[lit_r(x) for x in l["v"]])
+        if l["t"] == "obj":
+            return dict(l, v=[[k, lit_r(x)] for k, x in l["v"]])
+        return l
+    out = []
+    for n in nodes:
+        n2 = dict(n)
+        n2["vdefs"] = [dict(vd, name=name(vd["name"])) for vd in (n.get("vdefs") or [])]
+        n2["args"] = [dict(a, val=lit_r(a["val"])) for a in (n.get("args") or [])]
+        n2["dirs"] = [dict(d, val=lit_r(d["val"])) if "val" in d else d for d in (n.get("dirs") or [])]
+        out.append(n2)
+    return out, mapping
